@@ -5,7 +5,7 @@ import ast
 
 from sa.astx import call_name, dotted, src, walk_local
 from sa.selftest import Mutant, Silent
-from sa.props._lib_d import Views, resolve_locals
+from sa.props._lib_d import Views, resolve_locals, undecided_tests
 from sa.source import class_assigns
 from sa.props._lib_d import (NONNULL, call_nodes, calls_with, const_value_is, covers, handler_names, implied,
                              local_def, must_pass_under, path_under, peval, reach_under, self_assigns, succ_of,
@@ -21,7 +21,7 @@ POLL = "internet/pollreactor.py"
 EPOLL = "internet/epollreactor.py"
 AIO = "internet/asyncioreactor.py"
 PB = "internet/posixbase.py"
-TECHNIQUE = "sibling CFG comparison of reactor dispatch, dominance, path-sensitive tables"
+TECHNIQUE = "sibling CFG comparison, dominance/must-pass on inlined views; exhaustive errno-class evaluation"
 EXPLANATION = (
     "Decides for the dispatch function of every reactor (select, poll/epoll/continuous-polling mixin, asyncio): each "
     "doRead/doWrite call sits in a try whose handler is at least as broad as today's and stores the exception in the "
@@ -36,7 +36,21 @@ EXPLANATION = (
     "map to CONNECTION_DONE and nothing is delivered for them; EWOULDBLOCK is not a loss; writeSomeData sends a prefix; "
     "the half-close shuts only the write side; abortConnection is once-guarded. Not decided: byte-stream integrity on real "
     "sockets, OS behaviour, kqueue/cf/gtk/iocp reactors."
+    " METHODS: structural throughout (sibling CFG comparison, dominance / must-pass / must-precede on inlined views, table agreement); the errno handling of "
+    "recv()/send() and the direction flags are finite-exhaustive (one representative per class the code distinguishes, no test left undecided). No bounded rules."
 )
+RULE_KINDS = {
+    # sibling comparison of the reactors' dispatch functions, CFG dominance / must-pass / must-precede (helpers unknown to the rules inlined), handler
+    # breadth, table agreement (dispatch triples, event masks, faildict rows, epoll argument tables), def-use of captured exception / reason / protocol.
+    # Rules that fix a guard outcome ("why truthy", "socket present") follow both outcomes of every other test: for-all over paths.
+    "*": "structural",
+    # the OSError handlers of recv()/send() evaluated for every class of errno they distinguish: EWOULDBLOCK, ENOBUFS, anything else (EPIPE as the
+    # representative); completeness is checked per run: under each errno no test on the handler path is left undecided
+    "tcp-read/wouldblock-is-not-loss": "finite-exhaustive", "tcp-read/error-is-loss": "finite-exhaustive",
+    "tcp-write/wouldblock": "finite-exhaustive", "tcp-write/zero-only-wouldblock": "finite-exhaustive", "tcp-write/error-is-loss": "finite-exhaustive",
+    # both values of the direction flag / method name
+    "asyncio/method-follows-direction": "finite-exhaustive", "select/direction": "finite-exhaustive",
+}
 ASSUMPTIONS = [
     "log.err()/log.callWithLogger do not raise and do not touch reactor state",
     "abstract.FileDescriptor.doWrite returns the close reason (checked by C14)",
@@ -572,6 +586,10 @@ def check(ctx):
             R = reach_under(g, facts(11), srcs=hs)
             ctx.check(n not in R and g.exit in R, "tcp-read/wouldblock-is-not-loss", ctx.construct(q, g.node(n).ast),
                       "EWOULDBLOCK from recv() is reported as a lost connection")
+        for code in (11, 32):
+            und = undecided_tests(g, facts(code), srcs=hs)
+            if und:
+                ctx.note("tcp-read: the OSError handler of recv() also branches on " + src(g.node(und[0]).ast) + " (left free in the errno evaluation)")
         w = must_pass_under(g, facts(32), lost, srcs=hs)
         ctx.check(w is None, "tcp-read/error-is-loss", q + " | <errno other than EWOULDBLOCK>", "a failing recv() is not reported as CONNECTION_LOST", witness=g.describe(w))
         recvs = calls_with(g, "self.socket.recv")
@@ -621,6 +639,10 @@ def check(ctx):
         hs, facts = _errno_cases(g, send_nodes[0]) if send_nodes else ([], None)
         ctx.need(hs, "except OSError as <name> around send()")
         lost = [n.id for n in g.nodes if n.kind == "stmt" and isinstance(n.ast, ast.Return) and n.ast.value is not None and "CONNECTION_LOST" in src(n.ast.value)]
+        for code in (11, 105, 32):
+            und = undecided_tests(g, facts(code), srcs=hs)
+            if und:
+                ctx.note("tcp-write: the OSError handler of send() also branches on " + src(g.node(und[0]).ast) + " (left free in the errno evaluation)")
         for code, name in ((11, "EWOULDBLOCK"), (105, "ENOBUFS")):
             R = reach_under(g, facts(code), srcs=hs)
             w = must_pass_under(g, facts(code), zero, srcs=hs)
